@@ -14,6 +14,7 @@ REPO = os.environ.get("VERIF_REPO", "/repo")
 BUILD = os.path.join(ROOT, ".build")
 COQ = os.path.join(ROOT, "coq")
 NPROC = 16
+SHARD_MEM_KB = 6 * 1024 * 1024
 
 
 def log(*a):
@@ -154,7 +155,9 @@ def build_harness():
 def _run_shard(args):
     exe, lines, timeout = args
     try:
-        p = subprocess.run("ulimit -s unlimited 2>/dev/null; exec " + exe, shell=True, input="\n".join(lines) + "\n",
+        # address-space cap per shard: a runaway implementation (unbounded callbacks / allocation) must fail its own
+        # shard (reported as an abort), not take the whole check down with it
+        p = subprocess.run("ulimit -s unlimited 2>/dev/null; ulimit -v %d 2>/dev/null; exec %s" % (SHARD_MEM_KB, exe), shell=True, input="\n".join(lines) + "\n",
                            capture_output=True, text=True, timeout=timeout, env=dict(os.environ, VERIF_TMP=os.path.join(BUILD, "tmp")))
         return p.stdout.splitlines(), p.returncode
     except subprocess.TimeoutExpired as e:
